@@ -1051,7 +1051,6 @@ func (w *_listStructAssemblerRepr) AssembleValue() datamodel.NodeAssembler {
 			}}
 		}
 		field := fields[w.nextIndex]
-		w.doneFields[w.nextIndex] = true
 		w.nextIndex++
 
 		entryAsm, err := (*_structAssembler)(w).AssembleEntry(field.Name())
